@@ -814,6 +814,13 @@ func (ctx Ctx) callExpr(s *ast.CallExpr) coq.Expr {
 	if isBuiltin("cap") {
 		return ctx.capExpr(s)
 	}
+	if isBuiltin("append") || isBuiltin("copy") || isBuiltin("delete") {
+		// append(s) and a multi-valued call that supplies both operands,
+		// e.g. copy(f()), have a single argument
+		if len(s.Args) < 2 {
+			ctx.unsupported(s, "%s with fewer than two explicit arguments", s.Fun.(*ast.Ident).Name)
+		}
+	}
 	if isBuiltin("append") {
 		elemTy := sliceElem(ctx.typeOf(s.Args[0]).Underlying())
 		if s.Ellipsis == token.NoPos {
